@@ -71,7 +71,9 @@ def run_variant(v: dict, kind: str):
                     out["results"][pid]["violations"] = [l for l in text.splitlines() if "ANALYSIS-ERROR" in l][:2]
                 continue
             if kind == "silent":
-                if rc != 0:
+                if rc == 2 and v.get("allow_limit"):
+                    out["results"][pid]["note"] = "analysis limit (not a verdict) on a shape the analyser does not follow"
+                elif rc != 0:
                     out["ok"] = False
                     out["why"] += f"{pid} exit {rc} on a behaviour-preserving variant: {(viol or text.splitlines()[-3:])[:2]}; "
             else:
